@@ -104,8 +104,20 @@ def parts_of(s, activation):
     return parts
 
 
-def same_time(a, b):
-    return close(a, b, rel=1e-9, abs_=1e-12)
+def same_time(a, b, slack=0.0):
+    return close(a, b, rel=1e-9, abs_=max(1e-12, slack))
+
+
+def time_slack(feed, half, t):
+    """how far a rounding error of a few ulp in the sum of activities moves the root of
+    f(t) = Σ A_i 2^(-t/T_i) - target:  δt = δf / |f'(t)|.  (CPython >= 3.12 compensates the rounding
+    of `sum()`, the model adds left to right; near target == A(0) the root is that sensitive.)"""
+    try:
+        df = sum(v * math.log(2) / half[i] * math.exp(-math.log(2) / half[i] * t) for i, v in feed if v > 0)
+        tot = sum(v for _, v in feed if v > 0)
+        return 64 * 2.3e-16 * tot / df if df > 0 else 0.0
+    except (OverflowError, ZeroDivisionError):
+        return 0.0
 
 
 def check_cases(run: Run, R, cases, activation):
@@ -124,6 +136,11 @@ def check_cases(run: Run, R, cases, activation):
         except Exception as e:  # noqa   (C14's business; recorded there too)
             run.count(key=repr(case), nontrivial=False, tag="stream:activation-failed")
             continue
+        if any(v < 0 for _, v in a0):
+            # a negative product activity is C14's failure (known finding D12b: '2n' rows); "the summed
+            # activity of all products" is then not a meaningful reference for decay_time
+            run.count(key=repr(case), nontrivial=False, tag="stream:negative-activity(C14)")
+            continue
         total0 = math.fsum(v for _, v in a0)
         target = x * total0
         if not (target > 0) or target == float("inf"):
@@ -138,11 +155,11 @@ def check_cases(run: Run, R, cases, activation):
         reqs.append(AC.calc_line(mass, fl, cd, fr, t, rests, parts_of(s1, activation)))
         reqs.append("removal")
         reqs.append("decay %s" % f2h(target))
-        infos.append((case, inp, a0, total0, target, r1, r2, feed))
+        infos.append((case, inp, a0, total0, target, r1, r2, feed, half))
     reps = run_driver("activation", reqs) if reqs else []
     if len(reps) != len(reqs):
         raise InfraError("driver returned %d replies for %d requests" % (len(reps), len(reqs)))
-    for j, (case, inp, a0, total0, target, r1, r2, feed) in enumerate(infos):
+    for j, (case, inp, a0, total0, target, r1, r2, feed, half) in enumerate(infos):
         rd, rc, rrem, rdec = reps[4 * j:4 * j + 4]
         inp = dict(inp, target=target, activity_at_removal=total0)
         halves = sorted({R.fields(i)["Thalf_hrs"] for i, v in a0 if v > 0})
@@ -156,7 +173,7 @@ def check_cases(run: Run, R, cases, activation):
             return ("err", t[1]) if t[0] == "err" else ("ok", h2f(t[1]))
         m1 = parse(rd)
         if m1[0] != r1[0] or (m1[0] == "err" and m1[1] != r1[1]) or \
-                (m1[0] == "ok" and not same_time(m1[1], r1[1])):
+                (m1[0] == "ok" and not same_time(m1[1], r1[1], time_slack(feed, half, r1[1]))):
             if abs(total0 / target - 1) < 1e-14:
                 # target == activity at removal to the last bit: whether f(0) <= 0 holds then depends on
                 # how the sum is rounded (CPython >= 3.12 `sum()` is compensated, the model adds left to
